@@ -193,13 +193,35 @@ class PM:
                 and c.callee.qualname == "Pervaporation.calculate_partial_fluxes" and c.caller.func is self.func]
 
 
+def is_admissibility_exit(o) -> bool:
+    """A raise inside the Euler loop whose deciding test compares a state element of step k (or the element just
+    appended) with a constant bound: the model rejects an inadmissible state instead of reporting it (C18)."""
+    if o.kind != "raise" or not o.trace:
+        return False
+    cond, dec = o.trace[-1]
+    while isinstance(cond, tuple) and cond and cond[0] == "not":
+        cond = cond[1]
+    if not (isinstance(cond, tuple) and len(cond) == 3 and cond[0] in ("gt", "ge", "lt", "le") and isinstance(cond[1], Rat)):
+        return False
+    d = cond[1] - cond[2]
+    consts_ok = cond[1].is_const() or cond[2].is_const() or any(poly.T.get(i).name == "+inf" for i in (cond[1].atom_ids() | cond[2].atom_ids()))
+    state = any(poly.T.get(i).kind == "sym" and "[k]" in poly.T.get(i).name for i in d.deps())
+    in_loop = any(lp.kind == "for" and lp.series and lp.node.lineno <= getattr(o.exc.node, "lineno", -1) <= getattr(lp.node, "end_lineno", 10 ** 9)
+                  for lp in o.loops)
+    return consts_ok and state and in_loop
+
+
 def evaluate(repo: Repo, func: FuncInfo, tier="quick", modes=("vac", "T", "p"), bases=("weight", "molar"),
-             extra_inline=(), max_paths=2048) -> List[PM]:
+             extra_inline=(), max_paths=2048, guard_exits=None) -> List[PM]:
     out = []
     for label, facts, meta in configurations(repo, func, tier, modes, bases):
         cfg = make_config(facts, extra_inline, ret_summary=permeance_summary)
         outs = analyse(repo, func, cfg, max_paths=max_paths)
         for o in outs:
+            if is_admissibility_exit(o):
+                if guard_exits is not None:
+                    guard_exits.append((label, meta, o))
+                continue
             out.append(PM(repo, func, label, meta, o) if o.kind == "return" else (label, meta, o))
     return out
 
